@@ -4,7 +4,7 @@
    A side maps a path (N) to a regular file {size; mtime; content}; content is an identity (equal iff the bytes
    are equal).  The state DB maps a path to (source row, dest row), each
    (mtime, size).  Directories are skipped by the classifier and not modelled.
-   Conflict copies get the names cname Source p / cname Dest p.
+   Conflict copies get the first unused of the names cname_k Source p k / cname_k Dest p k.
    fs::copy gives the target the copier's current time [now]; rename keeps mtime.
    No proofs in this file. *)
 From Coq Require Import NArith ZArith List Bool.
@@ -113,9 +113,19 @@ Record world : Type := mk_world {
 }.
 
 Inductive side : Type := Source | Dest.
-(* conflict_filename: <stem>.conflict-<ts>-<side>[.<ext>]; here an injective renaming into fresh paths *)
-Definition cname (sd : side) (p : N) : N :=
-  match sd with Source => 4 * p + 1 | Dest => 4 * p + 2 end.
+(* conflict_filename + unused_conflict_path: <stem>.conflict-<ts>[-<n>]-<side>[.<ext>], the first name that is not taken
+   (`fix: bisync never renames a conflicting file onto an existing conflict copy`); here an injective renaming into fresh
+   paths: [cname_k sd p k] is the k-th conflict name of p on side sd *)
+Definition side_num (sd : side) : N := match sd with Source => 1 | Dest => 2 end.
+Definition cname_k (sd : side) (p k : N) : N := 16 * p + 4 * k + side_num sd.
+Definition cname (sd : side) (p : N) : N := cname_k sd p 0.
+Definition SLOTS : nat := 3.               (* names 0 .. 3 are tried; the code's search is unbounded *)
+Fixpoint free_slot (m : N -> option fent) (sd : side) (p : N) (fuel : nat) (k : N) : N :=
+  match fuel with
+  | O => cname_k sd p k
+  | S f => match m (cname_k sd p k) with None => cname_k sd p k | Some _ => free_slot m sd p f (k + 1) end
+  end.
+Definition cslot (m : N -> option fent) (sd : side) (p : N) : N := free_slot m sd p SLOTS 0.
 
 Definition action_of (st : strategy) (w : world) (p : N) : option act :=
   match classify (w_src w p) (w_dst w p) (w_dbs w p) (w_dbd w p) with
@@ -143,8 +153,8 @@ Definition exec (now : Z) (w : world) (p : N) (a : act) : world :=
   | RenameConflict =>
       match w_src w p, w_dst w p with
       | Some s, Some d =>
-          mk_world (upd (upd (w_src w) p None) (cname Source p) (Some s))
-                   (upd (upd (w_dst w) p None) (cname Dest p) (Some d))
+          mk_world (upd (upd (w_src w) p None) (cslot (w_src w) Source p) (Some s))
+                   (upd (upd (w_dst w) p None) (cslot (w_dst w) Dest p) (Some d))
                    (w_dbs w) (w_dbd w)
       | _, _ => w
       end
